@@ -26,12 +26,13 @@ type DepWalker struct {
 	Hashes     map[*ssa.Call]bool
 	Leaves     map[ssa.Value]bool // non-root leaves reached (calls without bodies, globals …)
 	seen       map[ssa.Value]bool
-	seenAlloc  map[*ssa.Alloc]bool
+	seenAlloc  map[ssa.Value]bool
+	depth      int // interprocedural descent depth
 }
 
 func NewDepWalker(root *ssa.Function, stopAtHash bool) *DepWalker {
 	return &DepWalker{Root: root, StopAtHash: stopAtHash, Out: map[string]bool{}, Hashes: map[*ssa.Call]bool{},
-		Leaves: map[ssa.Value]bool{}, seen: map[ssa.Value]bool{}, seenAlloc: map[*ssa.Alloc]bool{}}
+		Leaves: map[ssa.Value]bool{}, seen: map[ssa.Value]bool{}, seenAlloc: map[ssa.Value]bool{}}
 }
 
 // DepsOf is a convenience wrapper.
@@ -40,6 +41,94 @@ func DepsOf(root *ssa.Function, stopAtHash bool, vs ...ssa.Value) map[string]boo
 	for _, v := range vs {
 		w.Walk(v)
 	}
+	return w.Out
+}
+
+func inModule(g *ssa.Function) bool {
+	return g.Pkg != nil && g.Pkg.Pkg != nil && len(g.Pkg.Pkg.Path()) >= len(ModPath) && g.Pkg.Pkg.Path()[:len(ModPath)] == ModPath
+}
+
+// Translate maps a dependence set expressed in the frame of call's callee
+// (param:i, receiver field names, challenge) into the walker's frame.
+func (w *DepWalker) Translate(sub map[string]bool, call ssa.CallInstruction) {
+	args := call.Common().Args
+	callee := Callee(call)
+	for k := range sub {
+		switch {
+		case k == "challenge":
+			w.Out["challenge"] = true
+		case len(k) > 6 && k[:6] == "param:":
+			i, _ := strconv.Atoi(k[6:])
+			if i < len(args) {
+				w.Walk(args[i])
+			}
+		default:
+			// a field of the callee's receiver (its argument 0)
+			if callee != nil && callee.Signature.Recv() != nil && len(args) > 0 {
+				a0 := Strip(args[0])
+				if len(w.Root.Params) > 0 && w.Root.Signature.Recv() != nil && w.sameAsRecv(a0) {
+					w.Out[k] = true
+				} else {
+					w.Walk(a0)
+				}
+			}
+		}
+	}
+}
+
+// sameAsRecv: v is the root's receiver, possibly through embedded pointer fields or closure capture.
+func (w *DepWalker) sameAsRecv(v ssa.Value) bool {
+	recv := ssa.Value(w.Root.Params[0])
+	for i := 0; i < 20; i++ {
+		v = Strip(v)
+		if v == recv {
+			return true
+		}
+		if fv, ok := v.(*ssa.FreeVar); ok {
+			if b := FreeVarBinding(fv); b != nil {
+				v = b
+				continue
+			}
+			return false
+		}
+		if fr := AsFieldLoad(v); fr != nil && isEmbedded(fr) {
+			v = fr.Base
+			continue
+		}
+		if fa := AsFieldAddr(v); fa != nil && isEmbedded(fa) {
+			v = fa.Base
+			continue
+		}
+		return false
+	}
+	return false
+}
+
+// HashInputs computes, in fn's own frame, what flows into the arguments of
+// library hash calls executed by fn, its closures and (to depth 3) the module
+// functions it calls.
+func HashInputs(fn *ssa.Function, depth int) map[string]bool {
+	w := NewDepWalker(fn, false)
+	for _, g := range WithClosures(fn) {
+		for _, cs := range Calls(g) {
+			if CallIs(cs, HashFuncs...) {
+				for _, a := range cs.Common().Args {
+					w.Walk(a)
+				}
+				continue
+			}
+			if depth > 0 {
+				if callee := Callee(cs); callee != nil && callee.Blocks != nil && callee.Parent() == nil && inModule(callee) && !pureCall(FullName(callee)) {
+					sub := HashInputs(callee, depth-1)
+					delete(sub, "challenge")
+					if len(sub) > 0 {
+						w.Translate(sub, cs)
+					}
+				}
+			}
+		}
+	}
+	delete(w.Out, "challenge")
 	return w.Out
 }
 
@@ -64,6 +153,19 @@ func (w *DepWalker) Walk(v ssa.Value) {
 		w.Walk(s)
 		return
 	}
+	// a *big.Int is a mutable object: it depends on the arguments of every
+	// in-place setter applied to the same object (flow-insensitive)
+	if isBigPtr(v.Type()) {
+		root := BigRoot(v)
+		for _, m := range BigMuts(root) {
+			for _, a := range m.Call.Args[1:] {
+				w.Walk(a)
+			}
+		}
+		if root != v {
+			w.Walk(root)
+		}
+	}
 	switch x := v.(type) {
 	case *ssa.Parameter:
 		if i := w.paramIndex(x); i >= 0 {
@@ -79,6 +181,13 @@ func (w *DepWalker) Walk(v ssa.Value) {
 	case *ssa.Global:
 		w.Leaves[x] = true
 	case *ssa.Alloc:
+		w.storesInto(x)
+	case *ssa.MakeSlice:
+		w.Walk(x.Len)
+		for _, al := range SliceAliases(x) {
+			w.storesInto(al)
+		}
+	case *ssa.MakeMap:
 		w.storesInto(x)
 	case *ssa.UnOp:
 		if x.Op == token.MUL {
@@ -108,6 +217,26 @@ func (w *DepWalker) Walk(v ssa.Value) {
 			if w.StopAtHash {
 				return
 			}
+			// a hash depends on all of its inputs (its body feeds them to a hash.Hash by side effect)
+			for _, a := range x.Call.Args {
+				w.Walk(a)
+			}
+			return
+		}
+		// module callee with a body: depend only on what its results depend on
+		if g := Callee(x); g != nil && g.Blocks != nil && g.Parent() == nil && w.depth < 3 && inModule(g) && !pureCall(FullName(g)) {
+			sub := &DepWalker{Root: g, StopAtHash: w.StopAtHash, Out: map[string]bool{}, Hashes: map[*ssa.Call]bool{},
+				Leaves: map[ssa.Value]bool{}, seen: map[ssa.Value]bool{}, seenAlloc: map[ssa.Value]bool{}, depth: w.depth + 1}
+			for _, ret := range Returns(g) {
+				for _, r := range ret.Results {
+					sub.Walk(r)
+				}
+			}
+			w.Translate(sub.Out, x)
+			for h := range sub.Hashes {
+				w.Hashes[h] = true
+			}
+			return
 		}
 		if x.Call.IsInvoke() {
 			w.Walk(x.Call.Value)
@@ -250,7 +379,7 @@ func (w *DepWalker) recvField(fr *FieldRef) bool {
 func isEmbedded(fr *FieldRef) bool { return fr.Struct.Field(fr.Index).Embedded() }
 
 // storesInto: every value stored through an address derived from alloc a.
-func (w *DepWalker) storesInto(a *ssa.Alloc) {
+func (w *DepWalker) storesInto(a ssa.Value) {
 	if w.seenAlloc[a] {
 		return
 	}
